@@ -198,8 +198,12 @@ fn hyphenate_impl(hyphenater: &Hyphenator, list: &[ds::Horizontal]) -> Vec<ds::H
                 // Consume the node whose characters have just been placed in s (or the normal kern).
                 i += 1;
             };
-        // The first char node that triggered the word search will have been put in s.
-        assert!(!s.is_empty());
+        // The word is empty if the node that triggered the word search is a ligature that
+        // starts with a letter but also contains a non-letter (TeX.2021.898 finds 0 letters).
+        // Nothing has been consumed in this case.
+        if s.is_empty() {
+            continue;
+        }
 
         // Check if the word can be hyphenated based on the terminating node.
         // TeX.2021.899
